@@ -4,7 +4,7 @@ package main
 // runs the real admission sequence (pipeline.go) and writes one case per line for the extracted
 // spec checker (ocaml/c04/driver.ml).
 //
-//   (c04schema N <schema>)
+//   (c04schema N <schema> "SDL")              the SDL only so that a failing case can be stored with its schema
 //   (c04 N (meta valid|mutant "operator/variant" (feat "tag"…) "query text") <doc> <opname> (go t|f "stage" "family" "msg"))
 //   (c04merge N <doc-before> <doc-after>|(fail "stage" "msg"))
 //   (c04overlap N <doc normalised by Go> t|f)      verdict of the FieldSelectionMerging rule run alone
@@ -63,7 +63,7 @@ func newEnv(r *common.Rand, id int, out *common.Out) *env {
 			fmt.Fprintln(os.Stderr, "schema invalid:", err, res.Errors, "\n", s.SDL())
 			continue
 		}
-		out.Line(common.L("c04schema", common.I(id), dumpSchema(gs.Document())))
+		out.Line(common.L("c04schema", common.I(id), dumpSchema(gs.Document()), common.QS(s.SDL())))
 		return &env{schema: s, gs: gs, id: id}
 	}
 }
@@ -156,7 +156,7 @@ func cmdGen(args map[string]string) {
 	// the rule families with many sub-variants get more slots in the round-robin
 	weight := map[string]int{"wrong-literal-kind": 4, "var-incompatible-type": 3, "null-for-non-null": 2,
 		"conflict-different-args": 2, "conflict-different-names": 2, "conflict-different-shapes": 2,
-		"var-list-item-nullability": 2, "conflict-object-interface-scopes": 2}
+		"var-list-item-nullability": 2, "conflict-object-interface-scopes": 2, "repeated-directive-lost": 4}
 	for _, o := range mutOps() {
 		for k := 1; k < weight[o.name]; k++ {
 			ops = append(ops, o)
@@ -317,7 +317,7 @@ func cmdCorpus(args map[string]string) {
 			os.Exit(2)
 		}
 		id++
-		out.Line(common.L("c04schema", common.I(id), dumpSchema(gs.Document())))
+		out.Line(common.L("c04schema", common.I(id), dumpSchema(gs.Document()), common.QS(items[0])))
 		e := &env{gs: gs, id: id}
 		kind := "mutant"
 		label := items[3]
